@@ -56,7 +56,9 @@ def det_cases(draw, tier="quick"):
             # slice variable log u = H0 - e: small e puts many leaves outside the slice, large e almost none
             "e": float(10 ** draw(st.floats(-4, 0.7))),
             # (not exactly 1.0: the legacy sampler reads adapt_step_size == 1.0 as True, i.e. 'adapt')
-            "eps": draw(st.sampled_from([1e-3, 0.05, 0.2, 0.35, 0.5, 0.7, 0.9, 1.3, 2.0, 4.0])), "depth": draw(st.integers(0, 4)),
+            "eps": draw(st.sampled_from([1e-3, 0.05, 0.05, 0.1, 0.2, 0.2, 0.35, 0.5, 0.7, 0.9, 1.3, 2.0, 4.0])),
+            # (deep trees with small steps: the last doubling is often cut short inside its second half - halves of unequal size)
+            "depth": draw(st.sampled_from([0, 1, 2, 3, 4, 5, 6, 6])),
             "interface": draw(st.sampled_from(["experimental", "legacy"])), "useed": draw(st.integers(0, 10 ** 6)),
             # legacy interface: the sampler object has already produced a chain from another start before it is given x0
             "reuse": draw(st.booleans())}
@@ -84,13 +86,17 @@ class Inconclusive(Exception):
 
 def orbit_separated(xs):
     """True when distinct orbit indices have distinguishable positions (the harness identifies leaves by position)"""
-    pts = [(i, x) for i, x in sorted(xs.items()) if np.all(np.isfinite(x))]
-    for a in range(len(pts)):
-        for b in range(a + 1, len(pts)):
-            xa, xb = pts[a][1], pts[b][1]
-            if np.max(np.abs(xa - xb)) <= 1e-6 * (1 + max(np.max(np.abs(xa)), np.max(np.abs(xb)))):
-                return False
-    return True
+    pts = np.array([x for i, x in sorted(xs.items()) if np.all(np.isfinite(x))])
+    if len(pts) < 2:
+        return True
+    pts = pts.reshape(len(pts), -1)
+    mag = np.max(np.abs(pts), axis=1)
+    dist = np.max(np.abs(pts[:, None, :] - pts[None, :, :]), axis=2)
+    lim = 1e-6 * (1 + np.maximum(mag[:, None], mag[None, :]))
+    with np.errstate(all="ignore"):
+        close_ = dist <= lim
+    np.fill_diagonal(close_, False)
+    return not bool(np.any(close_))
 
 
 def uturn(xs, rs, lo, hi):
@@ -180,14 +186,15 @@ def run_det(c, rec):
         return
     # map every evaluated leaf to an orbit index
     idxs = []
+    okeys = [i for i, xi in xs.items() if i != 0 and np.all(np.isfinite(xi))]
+    omat = np.array([xs[i] for i in okeys]).reshape(len(okeys), -1)
+    oscale = 1 + np.max(np.abs(omat), axis=1) if len(okeys) else None
     for p in leaves:
         best, bi = None, None
-        for i, xi in xs.items():
-            if i == 0 or not np.all(np.isfinite(xi)):
-                continue
-            dd = np.max(np.abs(p - xi)) / (1 + np.max(np.abs(xi)))
-            if best is None or dd < best:
-                best, bi = dd, i
+        if len(okeys) and np.all(np.isfinite(p)):
+            dd = np.max(np.abs(omat - p[None, :]), axis=1) / oscale
+            k = int(np.argmin(dd))
+            best, bi = float(dd[k]), okeys[k]
         if not np.all(np.isfinite(p)):
             idxs.append(None)
             continue
@@ -229,7 +236,10 @@ def run_det(c, rec):
         rec.classify({"interface": c["interface"], "result": "inconclusive"}, False)
         rec.inconc(str(e))
         return
-    tags = {"interface": c["interface"], "doublings": min(ndoubl, 5), "outside_slice": bool(outside)}
+    L = len(last_doubling)
+    # a last doubling that was cut short inside its second half (leaf count not a power of two) has sub-trees with halves of unequal size
+    tags = {"interface": c["interface"], "doublings": min(ndoubl, 5), "outside_slice": bool(outside),
+            "last_doubling": "complete" if L == 2 ** (j - 1) else "cut_pow2" if L & (L - 1) == 0 else "cut_unequal_halves"}
     if rec.classify(tags, ndoubl >= 2 and outside):
         return
     # the new state
